@@ -86,6 +86,8 @@ class Sched:
         self.trace = hashlib.sha256()
         self.overlaps: set = set()
         self.job_of = [0] * nthreads
+        self.parked_after_block = 0
+        self.handovers_from_blocked = 0
 
     target = None       # (qualified function name, occurrence): preempt thread 0 exactly there, once
     seen_target = 0
@@ -93,8 +95,13 @@ class Sched:
 
     def yield_point(self, code=None):
         i = self.tid.get(threading.get_ident())
-        if i is None or i != self.cur:
+        if i is None:
             return
+        if i != self.cur:
+            # this thread was blocked on a lock of the program itself while it held the baton and the baton was handed on
+            # (see run()); now that it runs again it waits for its turn like everybody else
+            self.parked_after_block += 1
+            self.sems[i].acquire()
         self.points += 1
         if self.target is not None or self.record is not None:
             # systematic mode (preemption bound 1): thread 0 is preempted at the n-th start of one chosen function and the
@@ -110,6 +117,21 @@ class Sched:
             return
         if self.rnd.random() < self.p:
             self.switch(i)
+
+    lock_waits = 0
+
+    def blocked_yield(self) -> bool:
+        """Called by a thread that cannot get a lock of the program: let somebody else run. False if nobody else can."""
+        i = self.tid.get(threading.get_ident())
+        if i is None:
+            return False
+        if i != self.cur:
+            self.sems[i].acquire()
+            return True
+        if not any(a and k != i for k, a in enumerate(self.alive)):
+            return False
+        self.switch(i)
+        return True
 
     def switch(self, i, finished=False):
         cands = [k for k, a in enumerate(self.alive) if a and k != i]
@@ -144,9 +166,61 @@ class Sched:
             t.start()
         self.cur = 0
         self.sems[0].release()
+        # The thread holding the baton may block on a lock that belongs to the program under test and is held by a parked
+        # thread (an interleaving the program cannot have). That is not a finding: when nothing has moved for a while the
+        # baton is handed to another thread that can run.
+        last, idle = -1, 0
+        deadline = __import__("time").monotonic() + 300
+        while any(t.is_alive() for t in ths) and __import__("time").monotonic() < deadline:
+            ths[0].join(0.05) if ths[0].is_alive() else __import__("time").sleep(0.05)
+            now = self.points + self.switches
+            if now != last:
+                last, idle = now, 0
+                continue
+            idle += 1
+            if idle >= 6:  # 0.3 s without a single function start
+                cands = [k for k, a in enumerate(self.alive) if a and k != self.cur]
+                if cands:
+                    nxt = self.rnd.choice(cands)
+                    self.handovers_from_blocked += 1
+                    self.cur = nxt
+                    self.sems[nxt].release()
+                idle = 0
         for t in ths:
-            t.join(300)
+            t.join(1)
+        if any(t.is_alive() for t in ths):
+            raise Inconclusive("scheduled threads did not finish within the watchdog time (no verdict from this schedule)")
         return res
+
+
+class CoopLock:
+    """Stand-in for a lock object of the program under test while the deterministic scheduler is active: instead of blocking
+    inside C (where the scheduler cannot see it) a thread that cannot get the lock hands the baton on and retries when it is
+    its turn again. Outside a scheduled run it behaves exactly like the real lock."""
+
+    def __init__(self, real, owner):
+        self._real, self._owner = real, owner
+
+    def acquire(self, blocking=True, timeout=-1):
+        S = self._owner.S
+        if S is None or not blocking or S.tid.get(threading.get_ident()) is None:
+            return self._real.acquire(blocking, timeout)
+        while not self._real.acquire(False):
+            S.lock_waits += 1
+            if not S.blocked_yield():
+                return self._real.acquire(True, timeout)  # nobody else can run: wait for real
+        return True
+
+    def release(self):
+        self._real.release()
+
+    def locked(self):
+        return self._real.locked() if hasattr(self._real, "locked") else False
+
+    __enter__ = acquire
+
+    def __exit__(self, *a):
+        self._real.release()
 
 
 class C13(Prop):
@@ -198,6 +272,19 @@ class C13(Prop):
             else:
                 return mon.DISABLE
         mon.register_callback(mon.DEBUGGER_ID, mon.events.PY_START, on_start)
+        # locks the program itself owns (module-level objects): make them visible to the scheduler
+        import _thread
+        lock_types = (type(_thread.allocate_lock()), type(threading.RLock()))
+        n = 0
+        for name, mod in list(sys.modules.items()):
+            f = getattr(mod, "__file__", None) or ""
+            if not f.startswith(self.roots):
+                continue
+            for attr, val in list(vars(mod).items()):
+                if isinstance(val, lock_types):
+                    setattr(mod, attr, CoopLock(val, self))
+                    n += 1
+        col.count("program_locks_made_cooperative", n)
 
     def check(self, case, col: Collector):
         getattr(self, "_check_" + case["kind"])(case, col)
@@ -260,6 +347,8 @@ class C13(Prop):
             col.count("forced_switches", S.switches)
             col.count("yield_points", S.points)
             col.count("distinct_job_overlaps", len(S.overlaps))
+            col.count("handovers_from_a_thread_blocked_on_a_program_lock", S.handovers_from_blocked)
+            col.count("cooperative_lock_waits", S.lock_waits)
             if S.switches:
                 col.distinct("schedule", sig)
             if res != solo:
